@@ -440,6 +440,7 @@ type FetchSpec struct {
 	SignWith  string // cert key used to sign (default K)
 	PrevK     string // previous certificate key (none)
 	SelfInfo  bool   // the bundle carries a self-asserted registration-flow info for its own key and nonce
+	WrongId   bool   // the bundle's (so far unused) id field is set, and is NOT the key id of its certificate key
 }
 
 // BuildInfo assembles the signed-bundle content.
@@ -464,6 +465,9 @@ func (w *World) BuildInfo(fs FetchSpec) (*types.FetchNodeCredentialsInfo, error)
 	}
 	if fs.PrevK != "" && fs.PrevK != None {
 		info.PreviousCertificatePublicKeyPkix = w.EnsureCertKey(fs.PrevK).Pkix
+	}
+	if fs.WrongId {
+		info.Id = "not-the-key-id-of-this-bundle"
 	}
 	if fs.SelfInfo {
 		info.WrappingRegistrationFlowInfo = &types.WrappingRegistrationFlowInfo{CertificatePublicKeyPkix: ck.Pkix, Nonce: w.NonceBytes(fs.Nonce)}
